@@ -23,7 +23,7 @@ TRACE = "GpuRequestTrace"
 
 FRAC = ["absent", "empty", "dec", "dec3", "subcenti", "one", "gt1", "zero", "neg", "exp", "hex", "plus", "ws", "nan", "inf", "ovf", "udf", "u64", "nonnum"]
 MEM = ["absent", "empty", "pos", "lead0", "zero", "neg", "exp", "hex", "plus", "ws", "nan", "ovf", "u64", "max64", "nonnum", "dec"]
-DEV = ["absent", "empty", "one", "two", "zero", "neg", "exp", "hex", "plus", "ws", "nan", "ovf", "u64", "max64", "huge", "nonnum", "dec"]
+DEV = ["absent", "empty", "one", "two", "zero", "neg", "exp", "hex", "plus", "ws", "nan", "ovf", "u64", "max64", "big32", "huge", "nonnum", "dec"]
 CTR = ["none", "one", "two", "init"]
 FCN = ["absent", "main", "init", "unknown"]
 
